@@ -74,8 +74,73 @@ pub fn random_move_number(rng: &mut Rng) -> String {
         2 => "18446744073709551614".to_string(),
         6 => "18446744073709551613".to_string(),
         3 => (2 + rng.below(1000)).to_string(),
+        // around every power of two at which a narrower counter would wrap
+        7 | 8 | 9 => {
+            let k = *rng.pick(&[8u32, 15, 16, 31, 32, 63]);
+            let base = 1u128 << k;
+            (base + rng.below(3) as u128 - 2).to_string()
+        }
         _ => (2 + rng.below(60)).to_string(),
     }
+}
+
+/// Material grid: every combination of (gold rabbits, gold officers, silver rabbits, silver
+/// officers) in 0..=8 each, on random squares off the goal ranks of the rabbits, both sides to
+/// move: the result conditions that count pieces (no rabbits left, piece-count shortcuts) at every
+/// total from 0 to 32.
+pub fn material_grid(rng: &mut Rng, stride: usize) -> Vec<(B, bool)> {
+    let officers = [5u8, 4, 3, 3, 2, 2, 1, 1];
+    let mut out = vec![];
+    let mut n = 0usize;
+    for gr in 0..=8usize {
+        for go in 0..=8usize {
+            for sr in 0..=8usize {
+                for so in 0..=8usize {
+                    n += 1;
+                    // the corners of the grid always, the interior at the given stride
+                    let corner = [gr, go, sr, so].iter().all(|x| *x == 0 || *x == 8 || *x == 1 || *x == 7);
+                    if !corner && n % stride != 0 {
+                        continue;
+                    }
+                    let mut b: B = [None; 64];
+                    let mut free: Vec<usize> = (8..56).collect();
+                    let mut put = |cell: (bool, u8), b: &mut B, rng: &mut Rng| {
+                        if free.is_empty() {
+                            return;
+                        }
+                        let k = rng.below(free.len());
+                        let sq = free.swap_remove(k);
+                        b[sq] = Some(cell);
+                    };
+                    for _ in 0..gr {
+                        put((true, 0), &mut b, rng);
+                    }
+                    for _ in 0..sr {
+                        put((false, 0), &mut b, rng);
+                    }
+                    let mut og = officers.to_vec();
+                    let mut os = officers.to_vec();
+                    for _ in 0..go {
+                        let k = rng.below(og.len());
+                        put((true, og.swap_remove(k)), &mut b, rng);
+                    }
+                    for _ in 0..so {
+                        let k = rng.below(os.len());
+                        put((false, os.swap_remove(k)), &mut b, rng);
+                    }
+                    // unsupported pieces on traps would make the start illegal: clear the traps
+                    for t in TRAPS.iter() {
+                        if b[*t].is_some() && !(0..4).any(|d| nb(*t, d).map_or(false, |j| matches!((b[*t], b[j]), (Some((g, _)), Some((h, _))) if g == h))) {
+                            b[*t] = None;
+                        }
+                    }
+                    out.push((b, n % 2 == 0));
+                    out.push((b, n % 2 == 1));
+                }
+            }
+        }
+    }
+    out
 }
 
 fn inverse(a: &Action) -> Option<Action> {
@@ -450,6 +515,34 @@ fn plan_of(gold: &[u8], silver: &[u8]) -> Vec<Action> {
 /// every (type of Gold's last piece, type of Silver's last piece) and every pair of first pieces:
 /// the hand-over after the 16th placement and the first placement for each piece type
 pub fn setup_corners(rng: &mut Rng, rep: &mut Report, sink: &mut Sink, em: Emit, continue_plies: usize) {
+    // sorted orders: all pieces of one type first (the eight rabbits fill a whole rank), weakest to
+    // strongest, strongest to weakest, and each of these for one side against a random other side
+    let mut sorted: Vec<Vec<u8>> = vec![];
+    for t in 0..6u8 {
+        let mut v = army_order(rng, None, None);
+        v.sort_by_key(|x| if *x == t { 0 } else { 1 });
+        sorted.push(v);
+    }
+    let mut asc = army_order(rng, None, None);
+    asc.sort();
+    let mut desc = asc.clone();
+    desc.reverse();
+    sorted.push(asc);
+    sorted.push(desc);
+    for (i, o) in sorted.iter().enumerate() {
+        for variant in 0..3 {
+            let mut g = Game::initial();
+            let mut player = Player::new(Policy::Uniform, true);
+            let other = army_order(rng, None, None);
+            let (go, so) = match variant {
+                0 => (o.clone(), sorted[(i + 1) % sorted.len()].clone()),
+                1 => (o.clone(), other),
+                _ => (other, o.clone()),
+            };
+            player.setup_plan = plan_of(&go, &so);
+            playout(&mut g, &mut player, 32 + continue_plies, rng, rep, sink, em);
+        }
+    }
     for a in 0..6u8 {
         for b in 0..6u8 {
             let mut g = Game::initial();
@@ -813,6 +906,83 @@ pub fn double_capture_scripts() -> Vec<(B, bool, Vec<(usize, usize)>)> {
                 }
             }
         }
+    }
+    out
+}
+
+/// Dense little battles around one trap: 4-8 pieces of both colours on the trap, its neighbours and
+/// their neighbours (a piece on the trap with exactly one supporter more often than not, enemy
+/// pieces of different strength side by side), plus a rabbit of each colour far away so that the
+/// game goes on.  Meant for exhaustive turn trees: captures, pushes and pulls off and onto the
+/// trap square, and their conjunctions within one turn, are a few steps away from every start.
+pub fn trap_clusters(rng: &mut Rng, n: usize) -> Vec<(B, bool)> {
+    trap_clusters_with(rng, n, [8u8, 2, 2, 2, 1, 1])
+}
+
+/// the same with other material limits (more than one camel or elephant per side: parseable and
+/// constructible, although no game from the initial position gets there)
+pub fn trap_clusters_with(rng: &mut Rng, n: usize, lim: [u8; 6]) -> Vec<(B, bool)> {
+    let mut out = vec![];
+    let mut tries = 0;
+    while out.len() < n && tries < n * 20 {
+        tries += 1;
+        let t = TRAPS[rng.below(4)];
+        let (tr, tf) = ((t / 8) as i32, (t % 8) as i32);
+        // squares at distance <= 2 from the trap, nearer ones listed more often
+        let mut near: Vec<usize> = vec![];
+        for dr in -2i32..=2 {
+            for df in -2i32..=2 {
+                let (r, f) = (tr + dr, tf + df);
+                if !(0..8).contains(&r) || !(0..8).contains(&f) {
+                    continue;
+                }
+                let dist = dr.abs() + df.abs();
+                if dist > 2 {
+                    continue;
+                }
+                let sq = (r * 8 + f) as usize;
+                for _ in 0..(3 - dist) {
+                    near.push(sq);
+                }
+            }
+        }
+        let mut b: B = [None; 64];
+        let mut cnt = [[0u8; 6]; 2];
+        let k = 4 + rng.below(5);
+        let mut placed = 0;
+        let mut guard_iter = 0;
+        while placed < k && guard_iter < 200 {
+            guard_iter += 1;
+            let sq = *rng.pick(&near);
+            if b[sq].is_some() {
+                continue;
+            }
+            let g = rng.chance(1, 2);
+            let ty = *rng.pick(&[0u8, 0, 1, 1, 2, 2, 3, 3, 4, 5]);
+            if cnt[g as usize][ty as usize] >= lim[ty as usize] {
+                continue;
+            }
+            // no rabbit on its own goal rank (the game would be over before the first step)
+            if ty == 0 && ((g && sq / 8 == 0) || (!g && sq / 8 == 7)) {
+                continue;
+            }
+            b[sq] = Some((g, ty));
+            cnt[g as usize][ty as usize] += 1;
+            placed += 1;
+        }
+        // a rabbit of each colour far from the trap, off the goal ranks
+        for g in [true, false] {
+            if cnt[g as usize][0] == 0 {
+                let far: Vec<usize> = (8..56).filter(|s| b[*s].is_none() && ((*s / 8) as i32 - tr).abs() + ((*s % 8) as i32 - tf).abs() >= 4).collect();
+                if !far.is_empty() {
+                    b[*rng.pick(&far)] = Some((g, 0));
+                }
+            }
+        }
+        if !no_hanging(&b) {
+            continue;
+        }
+        out.push((b, rng.chance(1, 2)));
     }
     out
 }
